@@ -195,7 +195,8 @@ def handle1 (toks : List String) : String :=
   | "kmeans3" :: rest => handleKMeans 3 rest
   | _ => "bad-op"
 
-/-- `large …`: a recipe op of the large / corner stream that the harness did NOT expand (the model
+/-- Prefixes of the LARGE / REUSE / SPECIAL / CONTEXT streams.
+`large …`: a recipe op of the large / corner stream that the harness did NOT expand (the model
 would take too long at that size): oracle only.  `reuse <op>`: the implementation used one
 algorithm value for two calls and reports the second; the model knows no history – it predicts the
 result of `<op>` itself. -/
@@ -203,6 +204,17 @@ def handle (toks : List String) : String :=
   match toks with
   | "large" :: _ => "skip large-n (oracle only)"
   | "reuse" :: rest => handle1 rest
+  -- special values / plumbing: `sp <m|o> <negzero> <scale> <preset> <plumb> <coord> <op>`; the model
+  -- knows neither zero signs nor input types (and the abstract KMeans model no numbers at all): it
+  -- predicts the plain op; flag `o`: the tweak changes the numbers for real (oracle only)
+  | "sp" :: fl :: _ :: _ :: _ :: _ :: _ :: rest =>
+    if fl == "m" then handle1 rest else "skip special-values (oracle only)"
+  -- calling context: `ctx <m|o> <kind> <m> <op>`: the model predicts the call alone
+  | "ctx" :: fl :: _ :: _ :: rest =>
+    if fl == "m" then handle1 rest else "skip context (oracle and sequential run only)"
+  | "mix" :: _ => "skip context (oracle and sequential run only)"
+  -- through `coupe_tools::parse_algorithm`
+  | "tl" :: rest => handle1 rest
   | _ => handle1 toks
 
 end Coupe.Driver.C02
